@@ -71,8 +71,8 @@ DEV = re.compile(r"^d([0-5]|b)(:\d+)?$")
 NUM = re.compile(r"^[-+]?(\d+\.?\d*|\.\d+)([eE][-+]?\d+)?$")
 HEX = re.compile(r"^\$[0-9A-Fa-f_]+$")
 BIN = re.compile(r"^%[01_]+$")
-HASHRE = re.compile(r'^HASH\("[^"]*"\)$')
-STRRE = re.compile(r'^STR\("[^"]*"\)$')
+HASHRE = re.compile(r"""^HASH\(("[^"]*"|'[^']*')\)$""")  # the README's own example emits HASH('..')
+STRRE = re.compile(r"""^STR\(("[^"]*"|'[^']*')\)$""")
 IDENT = re.compile(r"^[A-Za-z_][A-Za-z0-9_.]*$")
 FORBIDDEN = re.compile(r"__register|^None$|^True$|^False$|^nan$|^-?inf$|^<|>$|\(.*j\)$|^\[|\]$|^\{|\}$")
 
